@@ -581,6 +581,14 @@ def r13_4(ctx, counts: dict[str, int]) -> RuleResult:
 def run(ctx) -> dict:
     counts: dict[str, int] = {}
     results = [r13_1(ctx, counts), r13_2(ctx, counts), r13_3(ctx, counts), r13_4(ctx, counts)]
+    # the run-length builders of the category tables (fallback for Unicode versions without a
+    # generated table, and the UnicodeData.txt loader) treat major and minor categories with
+    # cloned blocks: the clones must be consistent
+    from .clones import clone_rule
+    r5 = clone_rule(ctx, 'R13.5', lambda f: f.module.name.startswith('elementpath.regex'), counts)
+    if len(r5.instances) < 4:
+        raise AnalysisError(f'R13.5: only {len(r5.instances)} clone pairs located in the regex package')
+    results.append(r5)
     return {
         'results': results, 'counts': counts,
         'explanation':
